@@ -5,6 +5,7 @@ game/agent/interface.py), parametric in an arbitrary total simulator, arbitrary 
 reward function.  The order of the calls is the one regenerated in Gen/Episode.lean.
 -/
 import PrimaiteModel.Model.Basic
+import PrimaiteModel.Model.Request
 namespace Primaite.Episode
 
 /-- One `AgentHistoryItem`: the tick it was taken at, what was asked, what was answered, the reward saved later. -/
@@ -115,5 +116,38 @@ def envReset (sem : Sem σ Act Req Resp) (order : List Nat) (build : Nat → σ)
 def run (sem : Sem σ Act Req Resp) (order : List Nat) (g : Game σ Req Resp) : List Act → Game σ Req Resp
   | [] => g
   | a :: as => run sem order (envStep sem order g a).1 as
+
+/-! ### the request layer as the simulator's `apply_request`
+
+`Simulation.apply_request` is `RequestManager.__call__` on the tree of the current state (model: `Request.dispatchK`,
+C05).  A refusal is built by the manager itself and always carries a documented status; a reached handler hands back
+whatever it returns: a `RequestResponse` with one of the four statuses (`some st`), or something else — `None`, a bool —
+(`none`), which `AgentHistoryItem(response=…)` rejects (in Python: a ValidationError out of `step`). -/
+
+/-- what `apply_request` may hand to `process_action_response` -/
+abbrev RawResp := Option Request.Status
+
+structure ReqSim (σ : Type) where
+  /-- the request tree of a simulation state (it changes as software and nodes come and go) -/
+  kids : σ → Request.Kids
+  /-- the validators, evaluated in a simulation state -/
+  env : σ → Request.Env
+  /-- the handlers: the only code that touches the simulation state -/
+  handler : Request.HId → List Request.Key → σ → σ × RawResp
+
+def ReqSim.apply (R : ReqSim σ) (req : List Request.Key) (s : σ) : σ × RawResp :=
+  match Request.dispatchK (R.env s) (R.kids s) req 0 with
+  | .unreachable _ => (s, some .unreachable)
+  | .failure _ _ => (s, some .failure)
+  | .reached h args => R.handler h args s
+
+/-- The four documented statuses as the strings of `RequestResponse.status` (compared with the regenerated Literal). -/
+def statusName : Request.Status → String
+  | .pending => "pending"
+  | .success => "success"
+  | .failure => "failure"
+  | .unreachable => "unreachable"
+
+def allStatuses : List Request.Status := [.pending, .success, .failure, .unreachable]
 
 end Primaite.Episode
